@@ -225,7 +225,7 @@ func (handler *Handler) loadByteArray(source []byte) (net1 *dhcpSubnet, net2 *dh
 
 			// if mac is captured, validate the IP is in the net2 subnet
 			if handler.session.IsCaptured(v.Addr.MAC) {
-				if net2.LAN.Contains(v.Addr.IP) {
+				if net2.LAN.Contains(v.Addr.IP) && v.Addr.IP != net2.LAN.Addr() && v.Addr.IP != net2.broadcast {
 					v.subnet = net2
 				}
 			}
